@@ -122,10 +122,10 @@ VARIABLES
     hs,             \* B: handshakes: client -> [pc, name, res, n]
     pfault,         \* B: how Vault answers issue requests at present
     asked, presentedExpired, dupIssue, benv,
-    tnow, texp, trenewable, tdead, kpc, tat, tfailed, tfault, cenv, treqs
+    tnow, texp, trenewable, tdead, kpc, tat, tfailat, tfault, cenv, treqs
 
 bvars == <<certs, store, cache, pending, flight, tfl, hs, pfault, asked, presentedExpired, dupIssue, benv>>
-cvars == <<tnow, texp, trenewable, tdead, kpc, tat, tfailed, tfault, cenv, treqs>>
+cvars == <<tnow, texp, trenewable, tdead, kpc, tat, tfailat, tfault, cenv, treqs>>
 vars == <<avars, bvars, cvars>>
 
 KEnv(k, f) ==           \* somebody writes to Vault / Vault's health changes
@@ -179,7 +179,7 @@ AFair == WF_vars(KLoad) /\ WF_vars(KPublish) /\ WF_vars(KSleep)
 
 IssueFaults == {"none", "500", "sealed", "403", "malformed", "nokey", "nocert", "badpem"}
 NoFlight == [st |-> "none", out |-> 0]
-IdleHs == [pc |-> "idle", name |-> "", res |-> 0, n |-> 0, live |-> FALSE]
+IdleHs == [pc |-> "idle", name |-> "", res |-> 0, n |-> 0, live |-> 0]
 Ids == 1..Len(certs)
 Snap(c) == {c[n] : n \in {m \in PNames : c[m] > 0}}
 Match(n) == {i \in store : certs[i].name = n /\ (ServesExpired \/ certs[i].st # "expired")}
@@ -201,7 +201,7 @@ PFault(f) ==
 
 HsStart(c, n) ==        \* a client opens a handshake with server name n
     /\ hs[c].pc \in {"idle", "done"} /\ hs[c].n < MaxHs
-    /\ hs' = [hs EXCEPT ![c] = [pc |-> "started", name |-> n, res |-> 0, n |-> @.n + 1, live |-> LiveInCache(n)]]
+    /\ hs' = [hs EXCEPT ![c] = [pc |-> "started", name |-> n, res |-> 0, n |-> @.n + 1, live |-> IF LiveInCache(n) THEN cache[n] ELSE 0]]
     /\ asked' = asked \cup {n}
     /\ UNCHANGED <<certs, store, cache, pending, flight, tfl, pfault, presentedExpired, dupIssue, benv>> /\ BOnly
 
@@ -253,7 +253,7 @@ IssueReq(n) ==
     /\ flight[n].st = "lead" /\ CanDecide
     /\ flight' = [flight EXCEPT ![n] = [st |-> "req", out |-> Decide(n).out]]
     /\ certs' = Decide(n).certs
-    /\ dupIssue' = (dupIssue \/ (LiveInCache(n) /\ \E c \in Clients : hs[c].pc = "lead" /\ hs[c].name = n /\ hs[c].live))
+    /\ dupIssue' = (dupIssue \/ (LiveInCache(n) /\ \E c \in Clients : hs[c].pc = "lead" /\ hs[c].name = n /\ hs[c].live = cache[n]))
     /\ UNCHANGED <<store, cache, pending, tfl, hs, pfault, asked, presentedExpired, benv>> /\ BOnly
 
 IssueResp(n) ==
@@ -359,7 +359,7 @@ BStoreOnePerName == \A i, j \in store : certs[i].name = certs[j].name => i = j
 BOneFlight == \A n \in PNames : /\ Cardinality({c \in Clients : hs[c].pc = "lead" /\ hs[c].name = n}) <= 1
                                   /\ flight[n].st = "none" => \A c \in Clients : ~(hs[c].pc \in {"wait", "lead"} /\ hs[c].name = n)
 \* a handshake that begins when the issuer holds an unexpired certificate for its name is served
-\* from the cache: it does not make Vault issue another one
+\* from the cache: it does not make Vault issue another one while that certificate is valid
 BServedFromCache == ~dupIssue
 \* "re-issue them <refresh> before they expire": an expired certificate is never presented
 BExpiredNeverPresented == ~presentedExpired
@@ -374,13 +374,13 @@ BFailedRetries == \A c \in Clients : hs[c].pc = "failed" => hs[c].res = 0
 
 CInit ==
     /\ tnow = 0 /\ texp = 2 * TTL /\ trenewable \in BOOLEAN /\ tdead = FALSE
-    /\ kpc = "start" /\ tat = 0 /\ tfailed = FALSE /\ tfault = FALSE /\ cenv = 0 /\ treqs = <<>>
+    /\ kpc = "start" /\ tat = 0 /\ tfailat = -10 /\ tfault = FALSE /\ cenv = 0 /\ treqs = <<>>
 
 COnly == UNCHANGED <<avars, bvars>>
 
 TFault ==               \* the token endpoints start / stop failing
     /\ cenv < MaxEnv /\ tfault' = ~tfault /\ cenv' = cenv + 1
-    /\ UNCHANGED <<tnow, texp, trenewable, tdead, kpc, tat, tfailed, treqs>> /\ COnly
+    /\ UNCHANGED <<tnow, texp, trenewable, tdead, kpc, tat, tfailat, treqs>> /\ COnly
 
 Note(k, ok) == Append(treqs, [req |-> k, at |-> tnow, ok |-> ok])
 
@@ -388,9 +388,9 @@ TLookup ==              \* lookup-self when the client is created (retried after
     /\ kpc = "start" /\ tnow >= tat
     /\ treqs' = Note("lookup", ~(tfault \/ tdead))
     /\ IF tfault \/ tdead
-       THEN /\ tfailed' = TRUE
+       THEN /\ tfailat' = tnow
             /\ IF LookupFailDisables THEN kpc' = "off" /\ tat' = tat ELSE kpc' = "start" /\ tat' = tnow + 2
-       ELSE /\ tfailed' = tfailed
+       ELSE /\ tfailat' = tfailat
             /\ IF trenewable THEN kpc' = "timer" /\ tat' = tnow + ((texp - tnow) \div 2) ELSE kpc' = "off" /\ tat' = tat
     /\ UNCHANGED <<tnow, texp, trenewable, tdead, tfault, cenv>> /\ COnly
 
@@ -398,8 +398,8 @@ TRenew ==               \* renew-self when the timer fires; a failure is retried
     /\ kpc = "timer" /\ tnow = tat
     /\ treqs' = Note("renew", ~(tfault \/ tdead))
     /\ IF tfault \/ tdead
-       THEN tfailed' = TRUE /\ tat' = tnow + 2 /\ texp' = texp
-       ELSE tfailed' = FALSE /\ texp' = tnow + 2 * TTL /\ tat' = tnow + TTL
+       THEN tfailat' = tnow /\ tat' = tnow + 2 /\ texp' = texp
+       ELSE tfailat' = tfailat /\ texp' = tnow + 2 * TTL /\ tat' = tnow + TTL
     /\ UNCHANGED <<tnow, trenewable, tdead, kpc, tfault, cenv>> /\ COnly
 
 TTick ==                \* half a second passes; timers that are due go first
@@ -407,13 +407,14 @@ TTick ==                \* half a second passes; timers that are due go first
     /\ ~(kpc = "timer" /\ tat <= tnow) /\ ~(kpc = "start" /\ tat <= tnow)
     /\ tnow' = tnow + 1
     /\ tdead' = (tdead \/ tnow + 1 >= texp)
-    /\ UNCHANGED <<texp, trenewable, kpc, tat, tfailed, tfault, cenv, treqs>> /\ COnly
+    /\ UNCHANGED <<texp, trenewable, kpc, tat, tfailat, tfault, cenv, treqs>> /\ COnly
 
 CNext == TFault \/ TLookup \/ TRenew \/ TTick
 
 CTypeOK == kpc \in {"start", "timer", "off"} /\ tnow \in 0..MaxT
-\* a renewable token dies only when a request to Vault failed since it was last extended
-CTokenKept == tdead => (~trenewable \/ tfailed)
+\* a renewable token dies only when Vault refused to extend it up to the end: the last attempt
+\* (they are one second apart after a failure) failed within the last second of its life
+CTokenKept == tdead => (~trenewable \/ tfailat >= texp - 2)
 \* after a failed request the next one is at least one second later
 CNoSpin == \A i \in DOMAIN treqs : (i > 1 /\ ~treqs[i-1].ok) => treqs[i].at - treqs[i-1].at >= 2
 
